@@ -210,7 +210,7 @@ func genOptOp(r *rand.Rand, isCond bool, kind int) string {
 			}
 			return strings.TrimSpace(verb + " " + strings.Join(as, " "))
 		case k < 86:
-			return strings.TrimSpace("aux " + []string{"", "N", "1", "2", "3"}[r.Intn(5)])
+			return strings.TrimSpace("aux " + []string{"", "N", "1", "2", "3", "9", "9"}[r.Intn(7)]) // 9: an empty map of the caller's (kept as it is, like any other)
 		case k < 89:
 			return "logger " + []string{"d", "o", "0"}[r.Intn(3)]
 		default:
